@@ -1,5 +1,15 @@
 #!/bin/bash
-# re-run every claimed quick check on the current (clean) /repo tree so that the committed evidence is from the unchanged tree
+# re-run every claimed quick check on the current (clean) /repo tree so that the committed evidence is from the
+# unchanged tree, then validate every evidence file (schema, discharged == obligations, no violations).
+# Run this (and commit evidence/) after any session that ran checks against changed trees.
 cd /verif
+export VERIF_SEED=${VERIF_SEED:-1} VERIF_TIER=quick
 test -z "$(git -C /repo status --porcelain)" || { echo "/repo not clean"; exit 1; }
-for id in $(jq -r '.checks[].property_id' MANIFEST.json); do ./check $id quick | tail -1; done
+rc=0
+for id in $(jq -r '.checks[].property_id' MANIFEST.json); do
+  rm -f evidence/$id.json
+  ./check $id quick | tail -1; r=${PIPESTATUS[0]}
+  [ "$r" = 0 ] || { echo "check $id exited $r"; rc=1; }
+done
+$(command -v python3-vt || echo python3) tools/validate_evidence.py || rc=1
+exit $rc
